@@ -11,6 +11,23 @@ Two identical mock repositories are built from generated MOF and objects.  Every
 After each step the outcomes are compared (pywbem ==, a strict structural walk incl. value classes, to_wbem_uri of every
 path; exception class; CIMError.status_code), what the server saw (operation, namespace, parameters) is compared with
 what A's object-level entry point saw, and after every writing operation the two repositories are compared.
+
+Both paths run the same WBEMConnection.<Operation>() method: argument checks, the choice of the target namespace and the
+fix-ups of the result (GetInstance: path from the request; EnumerateInstances/Names, CreateInstance: namespace set by the
+client; GetClass/EnumerateClasses: path built by the client) are shared, so the two results are directly comparable.
+What differs is _imethodcall()/_methodcall(): building the request, everything tocimxml() does, parsing, typing of the
+response.  Differences that the wire format prescribes are normalised, each where it is commented and nothing else:
+  - a None in PROPAGATED / a qualifier flavor and the DSP0201 default of the absent attribute; SCOPE has no ANY (_canon)
+  - embedded instances have no path; parameter declarations have no EmbeddedObject attribute (_canon)
+  - char16 values are str wherever the type is carried next to the value (walk_diff); the kind of sequence of PropertyList
+  - enumeration contexts are server-chosen strings (norm_pull; each side is handed its own context back)
+Inputs left out because the client neither checks nor can transmit them, so that what happens is decided by the mock
+and not by the marshalling: PropertyList entries that are not strings, MethodName / Params that are not str / sequences
+of pairs, contexts whose namespace is not a string, None for a required class / query / MaxObjectCount argument,
+duplicate InvokeMethod parameter names, integers beyond uint32, a reference value with host but no namespace (DSP0201 has
+no element for it), qualifier flavors left None in classes given to CreateClass (resolved from the declaration by the
+server on the direct path, DSP0201 default on the wire).
+Development aids (environment): C04_ONLY=fam_a,fam_b  C04_TIMING=1  C04_DUMP=<file for every recorded divergence>.
 """
 import copy
 import itertools
@@ -480,8 +497,8 @@ class Facade:
 
     # --- response of an intrinsic operation
     def full_path_xml(self, path, namespace, what):
-        """INSTANCEPATH / CLASSPATH; a real server names itself and the target namespace where the provider left
-        them out - counted so that the driver can tell when that happened"""
+        """INSTANCEPATH / CLASSPATH; a server names itself and the target namespace where the provider left them out
+        (the result then differs from the direct path, which is what K_HOST reports)"""
         if not isinstance(path, (CIMInstanceName, CIMClassName)):
             raise FacadeProblem('response-path-missing', what + ': ' + repr(path)[:100])
         if path.host is None or path.namespace is None:
@@ -946,9 +963,25 @@ def perform(conn, op, args, kwargs):
         return ('exc', type(e).__name__, str(e)[:300], [f.name for f in traceback.extract_tb(e.__traceback__)][-3:])
 
 
+def display_key(o):
+    if isinstance(o, CIMInstance) and o.path is not None:
+        o = o.path
+    if isinstance(o, tuple) and o and isinstance(o[0], CIMClassName):
+        o = o[0]
+    return o.to_wbem_uri() if isinstance(o, (CIMInstanceName, CIMClassName)) else ''
+
+
 def show(o):
     if o[0] == 'ok':
-        return 'returned ' + short(o[1])
+        r = o[1]
+        if isinstance(r, list) and r and isinstance(r[0], (CIMInstance, CIMInstanceName, tuple)):
+            # the order in which the mock walks associations depends on the hash seed of the process (it is the same
+            # on both paths within one run); shown sorted so that the recorded details are the same in every run
+            try:
+                r = sorted(r, key=display_key)
+            except Exception:     # pylint: disable=broad-except
+                pass
+        return 'returned ' + short(r)
     if o[0] == 'cim':
         return 'CIMError %s: %s' % (o[1], str(o[2])[:200])
     if o[0] == 'facade':
@@ -1122,16 +1155,19 @@ def step(p, fam, op, args, kwargs, label=None, wire_args=None):
         ow = perform(p.W, op, *copy.deepcopy((wa, wk)))
     finally:
         _ops.wbem_request = old
-    desc = dict(op=op, args=short((args, kwargs), 500), default_namespace=p.default_ns, direct=show(oa), wire=show(ow))
 
     def report(vid, d=None, **more):
         """-> id of the catalogued defect, or None after recording vid"""
         k = classify(op, args, kwargs, oa, ow, d)
-        if d:
-            more = dict(more, direct_value=d[1], wire_value=d[2], where=d[3])
-        if k:
-            violation(k, what=WHAT[k], **dict(desc, **more))
-        else:
+        vid = k or vid
+        if vid not in VIOLS:
+            # a pull step is described by its label: the arguments hold the server-chosen (random) context
+            desc = dict(op=op, args=short(label if wire_args is not None else (args, kwargs), 500),
+                        default_namespace=p.default_ns, direct=show(oa), wire=show(ow))
+            if d:
+                more = dict(more, direct_value=d[1], wire_value=d[2], where=d[3])
+            if k:
+                more['what'] = WHAT[k]
             violation(vid, **dict(desc, **more))
         return k
     comparable = True
@@ -1209,8 +1245,8 @@ STATELESS = ('enum', 'get', 'assoc', 'class', 'query', 'local', 'invoke', 'iter'
 COUNTER = [0, 0]
 
 
-def sparse(dn, which=0, every=4):
-    """quick tier: the non-default default namespace gets every 4th stateless case / every 3rd pull session"""
+def sparse(dn, which=0, every=5):
+    """quick tier: the non-default default namespace gets every 5th stateless case / every 3rd pull session"""
     if THOROUGH or dn == DEFAULTS[0]:
         return False
     COUNTER[which] += 1
@@ -1259,7 +1295,7 @@ TRI = (None, True, False)
 
 
 def fam_enumerate(dn):
-    for cn, ns in thin(itertools.product(class_forms(), ns_args(dn)), 2):
+    for cn, ns in thin(itertools.product(class_forms(), ns_args(dn)), 3):
         do(dn, 'enum', 'EnumerateInstances', cn, namespace=ns)
         do(dn, 'enum', 'EnumerateInstanceNames', cn, namespace=ns)
     for cls in ('C04_Base', 'C04_Sub'):
@@ -1728,7 +1764,8 @@ def fam_iter(dn):
                         variants += [dict(namespace=ns) for ns in ('Ns2/Sub', '/root/cimv2/', 'nsX')]
                     if op.endswith('Instances'):
                         variants += [dict(PropertyList=pl, MaxObjectCount=2) for pl in PLISTS[:6]]
-                        variants += [dict(IncludeQualifiers=a, IncludeClassOrigin=b) for a, b in ((True, True), (False, None))]
+                        variants += [dict(IncludeQualifiers=a, IncludeClassOrigin=b)
+                                     for a, b in ((True, True), (False, None))]
                     if op == 'IterEnumerateInstances':
                         variants += [dict(DeepInheritance=d, LocalOnly=lo) for d in TRI for lo in TRI]
                     if 'Associator' in op:
@@ -1746,7 +1783,8 @@ def fam_iter(dn):
                     p.A.disable_pull_operations = p.B.disable_pull_operations = disabled
                     step(p, 'iter', op, mkargs(), kw, label=(op, mode, disabled, short(kw, 150)))
                 for args in ([('C04_Nope',), (CIMClassName('C04_Sub', namespace='Ns2/Sub'),)] if 'Enumerate' in op else
-                             [(base_path('nope'),), ('C04_Base',), (base_path('s1', 'C04_Sub', ns='Ns2/Sub', host=OTHERHOST),)]
+                             [(base_path('nope'),), ('C04_Base',),
+                              (base_path('s1', 'C04_Sub', ns='Ns2/Sub', host=OTHERHOST),)]
                              if op != 'IterQueryInstances' else [('WQL', 'x')]):
                     p = pair(dn)
                     p.pull_mode(mode)
@@ -1880,11 +1918,13 @@ def fam_local_errors(dn):
                 ('References', (ip,), dict(ResultClass=v)), ('References', (ip,), dict(PropertyList=v)),
                 ('ReferenceNames', (v,), {}), ('ReferenceNames', (ip,), dict(Role=v)),
                 ('ExecQuery', (v, 'q'), {}), ('ExecQuery', ('WQL', v), {}), ('ExecQuery', ('WQL', 'q'), dict(namespace=v)),
-                ('EnumerateClasses', (), dict(ClassName=v)) if v is not None else ('EnumerateClasses', (), dict(namespace=5)),
+                ('EnumerateClasses', (), dict(ClassName=v)) if v is not None else
+                ('EnumerateClasses', (), dict(namespace=5)),
                 ('EnumerateClasses', (), dict(DeepInheritance=v)), ('EnumerateClassNames', (), dict(namespace=v)),
                 ('EnumerateClassNames', (), dict(DeepInheritance=v)), ('GetClass', (v,), {}),
                 ('GetClass', ('C04_Base',), dict(PropertyList=v)), ('GetClass', ('C04_Base',), dict(LocalOnly=v)),
-                ('ModifyClass', (v,), {}), ('CreateClass', (v,), {}), ('CreateClass', (CIMClass('C04_LE'),), dict(namespace=v))
+                ('ModifyClass', (v,), {}), ('CreateClass', (v,), {}),
+                ('CreateClass', (CIMClass('C04_LE'),), dict(namespace=v))
                 if v is not None else ('CreateClass', (5,), {}),
                 ('DeleteClass', (v,), {}), ('EnumerateQualifiers', (), dict(namespace=v)) if v is not None else
                 ('GetQualifier', (None,), {}), ('GetQualifier', (v,), {}), ('SetQualifier', (v,), {}),
